@@ -661,3 +661,43 @@ def rule_recursion_converted(ctx):
                       expected="try: ... except RecursionError: raise <library error>", found=short(call))
     if n < 3:
         raise AnalysisError("fewer than 3 recursive walks outside the wrapper found (%d)" % n)
+    # the same zone, another internal failure: float(<integer of any size>) raises OverflowError (an ArithmeticError, not a
+    # ValueError) for integers beyond the double range -- JSON has no such limit, so `"number": 1e400 written out` is decodable
+    conv = {}
+    for f in prog.functions.values():
+        if f.module.relpath.startswith("stix2/test"):
+            continue
+        fl_ = [c for c in body_walk(f.node) if isinstance(c, ast.Call) and isinstance(c.func, ast.Name) and c.func.id == "float" and c.args
+               and not isinstance(c.args[0], ast.Constant) and in_try_catching(c, names=("OverflowError", "ArithmeticError", "Exception", "BaseException")) is None]
+        if fl_:
+            conv[f] = fl_
+    m = 0
+    for fi in sorted(zone, key=lambda f: f.id):
+        for call in cg.calls_in(fi):
+            if call_simple_name(call) in ("_check_property", "__init__"):
+                continue
+            hit = None
+            for t in cg.resolve(call, fi):
+                if t.func is None or t.kind != EXACT:
+                    continue
+                # exact edges up to a module-level entry function; inside the encoder (methods of a constructed object, nested
+                # generators) class-hierarchy edges
+                reach = cg.reachable([t.func], kinds=(EXACT,))
+                for w in sorted(reach, key=lambda x: x.id):
+                    if w.cls is None and w.parent_func is None and w.module.name.startswith("stix2.canonicalization"):
+                        inner = cg.reachable([w], kinds=(EXACT, CHA))
+                        cv = sorted(x.qualname for x in inner if x in conv and x.module.name.startswith("stix2.canonicalization"))
+                        if cv:
+                            hit = cv[0]
+            if hit is None:
+                continue
+            m += 1
+            tr = in_try_catching(call, names=("OverflowError", "ArithmeticError", "Exception", "BaseException"))
+            run.check(tr is not None, R, key(fi.module.relpath, fi.qualname, "overflow-converted:%s" % short(call, 50)),
+                      "OverflowError can escape: %s reaches float(<value>) in %s outside the exception wrapper of the property "
+                      "cleaners: an integer beyond the double range (legal JSON) in an id-contributing property makes parse() / "
+                      "the constructor raise OverflowError, which is not in the library's error family" % (short(call, 40), hit),
+                      file=fi.module.relpath, line=call.lineno, function=fi.qualname,
+                      expected="try: ... except OverflowError: raise <library error>", found=short(call))
+    if m < 1:
+        raise AnalysisError("no float() conversion reachable outside the wrapper found (anchor lost: canonicalisation of numbers)")
